@@ -367,7 +367,11 @@ void COTPdoTx(CO_TPDO *pdo)
         if (pdosz <= 4) {
             /* supported mapping: 1 to 4 bytes */
             sz = COObjGetSize(pdo->Map[num], pdo->Node, 0L);
-            if (pdosz <= (uint8_t)(8 - frm.DLC)) {
+            if ((sz != 1u) && (sz != 2u) && (sz != 4u)) {
+                /* no basic type (e.g. 3 bytes): application's data */
+                COTpdoReadData(&frm, frm.DLC, pdosz, pdo->Map[num]);
+                frm.DLC += pdosz;
+            } else if (pdosz <= (uint8_t)(8 - frm.DLC)) {
                 if (pdosz == 3) {
                     /* for 3bytes, read a basic 32bit type */
                     COObjRdValue(pdo->Map[num], pdo->Node, &data, 4u);
@@ -647,6 +651,10 @@ void CORPdoWrite(CO_RPDO *pdo, CO_IF_FRM *frm)
                     }
                     dlc += pdosz;
                     COObjWrValue(obj, pdo->Node, (void *)&val32, sz);
+                } else {
+                    /* no basic type (e.g. 3 bytes): application's data */
+                    CORpdoWriteData(frm, dlc, pdosz, obj);
+                    dlc += pdosz;
                 }
             } else {
                 CORpdoWriteData(frm, dlc, pdosz, obj);
